@@ -257,16 +257,14 @@ func (serviceCore *ServiceCore) Init() error {
 		serviceCore.NodeInfo.KeyPairs = append(serviceCore.NodeInfo.KeyPairs, keyPair)
 	}
 
-	// load clients
-	err = serviceCore.loadClients()
-	if err != nil {
-		return err
+	// load clients and acls; a missing clients file must not keep the acls from being loaded
+	errClients := serviceCore.loadClients()
+	errAcls := serviceCore.loadAcls()
+	if errClients != nil {
+		return errClients
 	}
-
-	// load acls
-	err = serviceCore.loadAcls()
-	if err != nil {
-		return err
+	if errAcls != nil {
+		return errAcls
 	}
 
 	return nil
@@ -364,7 +362,7 @@ func (serviceCore *ServiceCore) DeleteClientAccessControls(clientID string) {
 
 	serviceCore.accessControls.Delete(clientID)
 
-	jsonData, _ := json.Marshal(serviceCore.GetClients())
+	jsonData, _ := json.Marshal(serviceCore.GetAllAccessControls())
 	_ = ioutil.WriteFile(serviceCore.Location+string(os.PathSeparator)+"acls.json", jsonData, 0o644)
 }
 
